@@ -951,8 +951,138 @@ async def impl_coap_dup(case):
 
 
 def dup_wire_expected(case, name):
-    return [(PATH_OPS[name], i, iid, tlv_encode([(1, dup_write_value(i, iid))]) if name == "write" else b"")
+    pb = case.get("posbase", 0)
+    return [(PATH_OPS[name], i, iid, tlv_encode([(1, dup_write_value(pb + i, iid))]) if name == "write" else b"")
             for i, (_aid, iid) in enumerate(case["ids"])]
+
+
+# ---------------------------------------------------------------- CoAP: overlapping API calls on ONE connection
+# 2-3 read / write / subscribe / unsubscribe batches in flight at once on one live CoAPHomeKitConnection: the scripted
+# transport suspends every post_bytes until the schedule releases it, so a second call starts while the first is still
+# waiting for its response.  Every interleaving of the start (S_i) and release (R_i) events.
+OV_IDS = [[(1, 52), (1, 53)], [(1, 54)], [(2, 52), (1, 53), (1, 55)], [(1, 53), (1, 52)]]
+OV_PATHS = ["read", "write", "sub", "unsub"]
+
+
+def ov_schedules(k):
+    """All orderings of S_0..S_k-1, R_0..R_k-1 with S_i before R_i."""
+    def go(started, released, acc):
+        if len(released) == k:
+            yield list(acc)
+            return
+        for i in range(k):
+            if i not in started:
+                yield from go(started | {i}, released, acc + [("S", i)])
+            elif i not in released:
+                yield from go(started, released | {i}, acc + [("R", i)])
+    return list(go(frozenset(), frozenset(), []))
+
+
+def gen_coap_overlap(tier, r):
+    cases = []
+    sch2, sch3 = ov_schedules(2), ov_schedules(3)
+    n = 0
+    for paths in itertools.product(OV_PATHS, repeat=2):
+        for ia, ib in ((0, 1), (1, 2), (2, 3), (0, 0)):
+            for sch in sch2:
+                n += 1
+                calls = [dict(path=p, ids=OV_IDS[i], vec=[DUP_KINDS[(n + j + 2 * ci) % 5] if (n + ci) % 3 else "okN" for j in range(len(OV_IDS[i]))],
+                              posbase=16 * ci) for ci, (p, i) in enumerate(zip(paths, (ia, ib)))]
+                cases.append(dict(calls=calls, schedule=sch, stream="overlap2"))
+    combos3 = [("read", "read", "read"), ("read", "write", "sub"), ("write", "read", "unsub"), ("sub", "unsub", "read"),
+               ("write", "write", "read"), ("read", "sub", "read")]
+    for ci3, paths in enumerate(combos3):
+        for si, sch in enumerate(sch3):
+            if tier == "quick" and (si + ci3) % 3:
+                continue
+            n += 1
+            pick = [(n + 0) % 4, (n + 1) % 4, (n + 3) % 4]
+            calls = [dict(path=p, ids=OV_IDS[i], vec=[DUP_KINDS[(n + j + ci) % 5] if (n + ci) % 2 else "okN" for j in range(len(OV_IDS[i]))],
+                          posbase=16 * ci) for ci, (p, i) in enumerate(zip(paths, pick))]
+            cases.append(dict(calls=calls, schedule=sch, stream="overlap3"))
+    return cases
+
+
+async def impl_coap_overlap(case):
+    from aiohomekit.controller.coap.connection import CoAPHomeKitConnection, EncryptionContext
+
+    calls = case["calls"]
+    gates, task_of, log = {}, {}, {}
+
+    async def post_bytes(payload, timeout=16.0):
+        ci = task_of[asyncio.current_task()]
+        c = calls[ci]
+        payload = bytes(payload)
+        req = ref.coap_parse_request(payload)
+        n = len(c["ids"])
+        items = [] if req is None else [dup_answer(c["vec"][j] if j < n else "okN", c["posbase"] + j, tid, iid)
+                                        for j, (_op, tid, iid, _d) in enumerate(req)]
+        resp = ref.coap_render_response(items)
+        log.setdefault(ci, []).append((payload, resp))
+        gates[ci] = asyncio.get_running_loop().create_future()
+        await gates[ci]                                    # the exchange is in flight until the schedule releases it
+        return resp
+
+    class Char:
+        def __init__(self):
+            self.value = None
+
+        @property
+        def raw_value(self):
+            return self.value
+
+    class Info:
+        def find_characteristic_by_iid(self, iid):
+            return None
+
+        def find_characteristic_by_aid_iid(self, aid, iid):
+            return Char()
+
+    ectx = object.__new__(EncryptionContext)
+    ectx.post_bytes = post_bytes
+    conn = CoAPHomeKitConnection(None, "any", 1234)       # the real constructor: whatever per-connection state it sets up
+    conn.enc_ctx = ectx
+    conn.info = Info()
+    tasks = {}
+
+    async def run_call(ci):
+        c = calls[ci]
+        ids = [tuple(k) for k in c["ids"]]
+        if c["path"] == "read":
+            return await conn.read_characteristics(list(ids))
+        if c["path"] == "sub":
+            return await conn.subscribe_to(list(ids))
+        if c["path"] == "unsub":
+            return await conn.unsubscribe_from(list(ids))
+        return await conn.write_characteristics([(a, i, dup_write_value(c["posbase"] + p, i)) for p, (a, i) in enumerate(ids)])
+
+    for ev, ci in case["schedule"]:
+        if ev == "S":
+            t = asyncio.get_running_loop().create_task(run_call(ci))
+            task_of[t] = ci
+            tasks[ci] = t
+            for _ in range(50):
+                if ci in gates or t.done():
+                    break
+                await asyncio.sleep(0)
+        else:
+            if ci in gates and not gates[ci].done():
+                gates[ci].set_result(None)
+            for _ in range(50):
+                if tasks[ci].done():
+                    break
+                await asyncio.sleep(0)
+    out = []
+    for ci in range(len(calls)):
+        t = tasks[ci]
+        if not t.done():
+            t.cancel()
+            tok = "other:never-finished"
+        else:
+            e = t.exception()
+            tok = dict_canon(t.result()) if e is None else ("crash" if isinstance(e, (IndexError, AttributeError)) else exc_token(e))
+        out.append({calls[ci]["path"]: dict(result=tok, wire=[hx(q) for q, _ in log.get(ci, [])], resp=[hx(a) for _, a in log.get(ci, [])], cache=[])})
+    return out
 
 
 def oracle_coap_dup(case, out):
@@ -964,7 +1094,8 @@ def oracle_coap_dup(case, out):
     wire); if anything is sent, it must be the complete batch."""
     bad = []
     ids, vec = case["ids"], case["vec"]
-    exp = [dup_expected(vec[i], i, ids[i][1]) for i in range(len(ids))]
+    pb = case.get("posbase", 0)
+    exp = [dup_expected(vec[i], pb + i, ids[i][1]) for i in range(len(ids))]
     for name, o in out.items():
         if name == "write" and case.get("unknown") and not o["wire"] and not o["result"].startswith("ok"):
             continue     # a batch naming a characteristic the controller does not know is refused before anything is sent
@@ -1612,6 +1743,42 @@ def _run(ctx, tier, seed):
                  dup_n=len(c["ids"]), dup_repeated_keys=min(nrep, 4), dup_repeated_iids=min(iid_rep, 4),
                  dup_repeat_followed=any(c["ids"][i][1] in [k[1] for k in c["ids"][:i]] and i + 1 < len(c["ids"]) for i in range(len(c["ids"]))))
 
+    # ---- coap: overlapping calls on one connection
+    ov_cases = gen_coap_overlap(tier, rng(seed, "c17ov"))
+
+    async def all_ov():
+        return [await impl_coap_overlap(c) for c in ov_cases]
+    ovouts = asyncio.run(all_ov())
+    ov_dec = drv.batch([f"cdec 0 {(list(o.values())[0]['resp'] or ['-'])[0]}" for outs_ in ovouts for o in outs_])
+    ov_exit_lines, k = [], 0
+    for c, outs_ in zip(ov_cases, ovouts):
+        for call, o in zip(c["calls"], outs_):
+            ov_exit_lines.append(f"cexit {'all' if call['path'] == 'read' else 'err'} {len(call['ids'])} {ov_dec[k][3:]}" if ov_dec[k].startswith("ok") else "bad")
+            k += 1
+    ov_exit = drv.batch(ov_exit_lines)
+    k = 0
+    for oi, (c, outs_) in enumerate(zip(ov_cases, ovouts)):
+        sched = " ".join(f"{e}{i}" for e, i in c["schedule"])
+        desc = dict(stream=c["stream"], schedule=sched, calls=[dict(path=x["path"], ids=x["ids"], per_position_outcomes=x["vec"]) for x in c["calls"]],
+                    note="S_i starts call i (runs until its post_bytes is in flight), R_i delivers call i's own response")
+        for ci, (call, o) in enumerate(zip(c["calls"], outs_)):
+            orc = oracle_coap_dup(dict(ids=call["ids"], vec=call["vec"], posbase=call["posbase"], known_read=[]), o)
+            for slug, text in orc:
+                add_v(slug.replace("coap-ids:", "coap-overlap:"), f"call {ci} of overlapping calls [{sched}]: " + text, True, case=desc,
+                      impl=[list(x.values())[0]["result"][:300] for x in outs_])
+            res = list(o.values())[0]["result"]
+            mm = model_pairs_canon(ov_exit[k], call["ids"]) if ov_dec[k].startswith("ok") else ov_dec[k]
+            if res != mm and not orc:
+                add_v("coap-overlap:model-mismatch", f"call {ci} ({call['path']} of {call['ids']}) in [{sched}]: {res[:100]} != per-call model {mm[:100]}",
+                      False, case=desc, impl=res[:1000], model=mm[:1000],
+                      broken="correspondence: per-call model (coap_decode_all + zip_results on the call's own ids and response) <-> overlapping calls")
+            k += 1
+        cov.case(f"o{oi}", True,
+                 sample=dict(stream="coap:" + c["stream"], schedule=sched, calls=[(x["path"], x["ids"]) for x in c["calls"]],
+                             results=[list(x.values())[0]["result"][:60] for x in outs_]) if oi % 211 == 3 else None,
+                 ov_calls=len(c["calls"]), ov_paths="+".join(x["path"] for x in c["calls"]),
+                 ov_overlap="nested" if c["schedule"][1][0] == "S" else "sequential-start")
+
     # ---- extraction cross-check: a sample of the requests above, re-evaluated with vm_compute inside Coq
     if not ctx.get("replay"):
         xs = xc_sample(xc_stream)
@@ -1636,6 +1803,8 @@ def _run(ctx, tier, seed):
         "control bytes; ble histories: every history of 1..2 (thorough: 1..3; quick: every 4th 3-step one) requests over "
         "{2 characteristics} x {plain, secure session} x {0, 80, 300}-byte bodies on ONE real AIOHomeKitBleakClient object (its own "
         "determine_fragment_size, persistent session keys, responses fragmented by the demo accessory), MTUs 100..515; "
+        "coap overlap: 2 concurrent read/write/subscribe/unsubscribe calls on one connection, all 16 path pairs x 4 id-list pairs x all 6 "
+        "interleavings of starts and response deliveries; 3 concurrent calls x 6 path triples x 90 interleavings (quick: every third); "
         "coap ids: every id vector over {(1,52),(1,53),(2,52)} for n = 1..4 x every {okN,err} outcome vector "
         "(+2 mixed) through read/write/subscribe/unsubscribe against an accessory that answers per wire position; "
         f"coap: every outcome vector over {{ok0, okN, err, errB, wrong-tid, wrong-control}} for n = 1..{5 if tier == 'quick' else 6}"
